@@ -90,6 +90,18 @@ def seg_class(seg):
 def request_for(method, target, prefix):
     hdr = {}
     body = b""
+    if method in ("POST:uid-ics", "POST:uid-vcf", "PUT:uid-ics"):
+        # the adversarial string is not in the request target but in the body, as the UID of the object: a POST lets the
+        # server pick the member name, and whatever it derives it from must not become a path
+        uid = target
+        p = prefix.rstrip("/")
+        if method == "POST:uid-vcf":
+            body = ("BEGIN:VCARD\r\nVERSION:3.0\r\nUID:%s\r\nFN:Trav\r\nN:Trav;;;;\r\nEND:VCARD\r\n" % uid).encode("utf-8")
+            return "POST", p + davsys.COLL_PATHS["ab"], {"Content-Type": B.CT_VCF}, body
+        body = B.ics(uid, "traversal")
+        if method == "PUT:uid-ics":
+            return "PUT", p + davsys.COLL_PATHS["cal"] + "byuid.ics", {"Content-Type": B.CT_ICS}, body
+        return "POST", p + davsys.COLL_PATHS["cal"], {"Content-Type": B.CT_ICS}, body
     if method == "PUT":
         hdr = {"Content-Type": B.CT_ICS}
         body = B.ics("trav-uid", "traversal")
@@ -253,8 +265,12 @@ def _worker(args):
         before = tree_hash([fr.outer, fr.absd], fr.root)
         for (method, segs) in cases:
             # "@ABS:<name>" spells the absolute file-system path of a decoy (it differs per sandbox)
+            abs_first = any(x.startswith("@ABS:") for x in segs[:1])
             segs = tuple((fr.absd if x == "@ABS:absdecoy" else os.path.join(fr.outer, "mid", "sibling") if x == "@ABS:sibling" else fr.outer if x == "@ABS:outer" else x).strip("/") if x.startswith("@ABS:") else x for x in segs)
             path = prefix.rstrip("/") + "/" + "/".join(segs)
+            if ":uid-" in method:
+                # a file-system path as it would be spelled in a UID: relative traversals as they are, decoys by absolute path
+                path = "/".join(segs) if not abs_first else "/" + "/".join(segs).lstrip("/")
             m, target, hdr, body = request_for(method, path, prefix)
 
             def do():
@@ -272,7 +288,7 @@ def _worker(args):
             stats["classes"].add((method, classes, r.status))
             outside = [e for e in events if not (e[1] == fr.root or e[1].startswith(fr.root + os.sep))]
             stats["events_inside_root"] += len(events) - len(outside)
-            where = "multiget-href" if method == "REPORT" else "request-target"
+            where = "multiget-href" if method == "REPORT" else "body-uid" if ":uid-" in method else "request-target"
             if outside:
                 kinds = sorted({e[0] for e in outside})
                 vio("fs-access-outside-root:%s:%s:%s" % (method, where, "+".join(kinds)), "%s %s made the server %s %s" % (method, path, kinds, sorted({e[1].replace(fr.base, "<sandbox>") for e in outside})[:3]), {"method": method, "path": path, "status": r.status, "events": [(e[0], e[1].replace(fr.base, "<sandbox>"), e[2]) for e in outside[:6]]})
@@ -332,6 +348,18 @@ def gen_cases(tier):
     return seqs, trav + absolute, deep
 
 
+def gen_uid_cases():
+    """Paths spelled in the UID of an uploaded object (literal text: no percent-encoding layer)."""
+    out = []
+    for n in range(1, 9):
+        for tail in (("secret",), ("secret.ics",), ("sibling", "member"), ("sibling", "member.ics"), ("newdir", "x"), ("root-evil", "secret")):
+            out.append(("..",) * n + tail)
+    for tail in (("@ABS:absdecoy", "secret"), ("@ABS:absdecoy", "secret.ics"), ("@ABS:absdecoy", "new"), ("@ABS:sibling", "member.ics"), ("@ABS:outer", "secret.ics")):
+        out.append(tail)
+    out += [("..",), (".",), ("", "x"), ("a", "..", "..", "..", "x"), (".git", "config"), ("..", ".git", "HEAD")]
+    return out
+
+
 def run(tier, workers=None):
     rep = Reporter("C13", tier)
     nw = workers or 16
@@ -346,6 +374,7 @@ def run(tier, workers=None):
         if kind in ("proc", "wsgiref"):
             # the subprocess / wsgiref fronts take the traversal-focused part only
             cases = [(m, s) for s in trav + deep + [q for q in seqs if any(x in TRAVERSAL for x in q) and len(q) <= 2] for m in METHODS]
+        cases += [(m, u) for u in gen_uid_cases() for m in ("POST:uid-ics", "POST:uid-vcf", "PUT:uid-ics")]
         ncases += len(cases)
         k = nw if kind != "proc" else 8
         for i in range(k):
@@ -369,7 +398,7 @@ def run(tier, workers=None):
     cov = {
         "evaluations": tot["requests"],
         "distinct_nontrivial": len(classes),
-        "rule": "all segment sequences up to length %d over %d segments, traversal-only prefixes of length 3-5 and in-collection traversals of length 1-6, each for 10 methods (REPORT places the path in a multiget href); distinct non-trivial = distinct (method, segment classes, status) outcomes observed" % (2 if tier == "quick" else 3, len(SEGMENTS)),
+        "rule": "all segment sequences up to length %d over %d segments, traversal-only prefixes of length 3-5 and in-collection traversals of length 1-6, each for 10 methods (REPORT places the path in a multiget href), plus %d paths spelled as the UID of a POSTed / PUT object; distinct non-trivial = distinct (method, segment classes, status) outcomes observed" % (2 if tier == "quick" else 3, len(SEGMENTS), len(gen_uid_cases())),
         "samples": ["MKCOL /user/../../sibling/newdir", "GET /%2e%2e/%2e%2e/secret.ics", "REPORT multiget href /user/calendars/calendar/../../../../sibling/member.ics"],
         "segments": SEGMENTS, "methods": METHODS, "fronts": ["%s@%s" % f for f in fronts],
         "status_histogram": {str(k): v for k, v in sorted(status.items(), key=lambda x: str(x[0]))},
